@@ -1148,9 +1148,25 @@ package trzsz
 //@ end
 //@ func TrzszRelay.sendAction
 //@   assigns wlog, wlen, inLog, inLen, outLog, outLen
+//@   ensures [C14] jsonAlways("transferAction", "Lang", "lang") && jsonAlways("transferAction", "Version", "version") && \
+//@       jsonAlways("transferAction", "Confirm", "confirm") && jsonAlways("transferAction", "Newline", "newline") && \
+//@       jsonAlways("transferAction", "Protocol", "protocol") && jsonAlways("transferAction", "SupportBinary", "binary") && \
+//@       jsonAlways("transferAction", "SupportDirectory", "support_dir") && \
+//@       jsonAlways("transferAction", "TunnelConnected", "tunnel") && jsonAlways("transferAction", "SupportFork", "fork")
 //@ end
+//@ # What the relay forwards is the whole configuration: every setting is emitted under its wire key
+//@ # whatever its value (a setting the encoder may leave out would silently turn into the client's
+//@ # default: "timeout":0 - never time out - would become 20 seconds).
 //@ func TrzszRelay.sendConfig
 //@   assigns wlog, wlen, inLog, inLen, outLog, outLen
+//@   ensures [C14] jsonAlways("transferConfig", "Quiet", "quiet") && jsonAlways("transferConfig", "Binary", "binary") && \
+//@       jsonAlways("transferConfig", "Directory", "directory") && jsonAlways("transferConfig", "Overwrite", "overwrite")
+//@   ensures [C14] jsonAlways("transferConfig", "Timeout", "timeout") && jsonAlways("transferConfig", "Newline", "newline") && \
+//@       jsonAlways("transferConfig", "Protocol", "protocol") && jsonAlways("transferConfig", "MaxBufSize", "bufsize")
+//@   ensures [C14] jsonAlways("transferConfig", "EscapeTable", "escape_chars") && \
+//@       jsonAlways("transferConfig", "TmuxPaneColumns", "tmux_pane_width") && \
+//@       jsonAlways("transferConfig", "TmuxOutputJunk", "tmux_output_junk") && \
+//@       jsonAlways("transferConfig", "CompressType", "compress") && jsonAlways("transferConfig", "Fork", "fork")
 //@ end
 
 // ===========================================================================
